@@ -1,0 +1,164 @@
+//go:build verif
+
+package tasklane
+
+// Contracts for govc (contract-based deductive verification, see /verif/DESIGN.md).
+// Comment-only: with the tag off this file is not compiled, with it on it adds no code.
+// Channel ghost state (sends, recvs, lastSentIface, lastRecvIface, closed, closeOnly, sendSeq, recvSeq, lastRecvAny),
+// WaitGroup ghost (added, doneByMe), atomic counter ghost (myCnt, cntMax), doneChan/ctxErr are declared in
+// /verif/contracts/std. All of them are thread-local views except `closed`, which other goroutines may set.
+
+// startCalls / lastStarted: number of Task.Start calls by this thread and the task of the last one
+//@ ghost var startCalls int
+//@ ghost var lastStarted any
+//@ ghost var spawnedQ int
+//@ ghost var spawnedW int
+
+// the lane's own state is exactly what it was (two-state predicate)
+//@ pure laneSame(l *TaskLane) bool = l.ctx == old(l.ctx) && l.wg == old(l.wg) && l.laneSize == old(l.laneSize) && l.queueSize == old(l.queueSize) && l.universalQueue == old(l.universalQueue) && l.blockingTaskCnt == old(l.blockingTaskCnt)
+//@   | && l.bufferedQueueList == old(l.bufferedQueueList) && l.blockingQueueList == old(l.blockingQueueList)
+//@   | && (forall i int {l.bufferedQueueList[i]} :: 0 <= i && i < len(l.bufferedQueueList) ==> l.bufferedQueueList[i] == old(l.bufferedQueueList[i]))
+//@   | && (forall i int {l.blockingQueueList[i]} :: 0 <= i && i < len(l.blockingQueueList) ==> l.blockingQueueList[i] == old(l.blockingQueueList[i]))
+
+// A task is arbitrary user code: it may panic, block, and touch anything that is not the lane's own state
+// (assumed: it does not replace the lane's channels, context, counters).
+//@ iface Task.Start(t)
+//@   modifies everything
+//@   modifies startCalls, lastStarted
+//@   mayPanic
+//@   attr blocking yes
+//@   ensures startCalls == old(startCalls) + 1 && lastStarted == t
+//@   ensures forall l *TaskLane {l.ctx} :: old(allocated(l)) ==> laneSame(l)
+//@   onpanic startCalls == old(startCalls) + 1 && lastStarted == t
+//@   onpanic forall l *TaskLane {l.ctx} :: old(allocated(l)) ==> laneSame(l)
+
+// lane well-formedness (established by New, fields never written afterwards)
+//@ pure laneOK(tl *TaskLane) bool = tl != nil && tl.ctx != nil && tl.wg != nil && tl.blockingTaskCnt != nil && tl.universalQueue != nil && !tl.universalQueue.closeOnly && tl.laneSize >= 0
+//@   | && len(tl.bufferedQueueList) == tl.laneSize && len(tl.blockingQueueList) == tl.laneSize
+//@   | && (forall i int {tl.bufferedQueueList[i]} :: 0 <= i && i < tl.laneSize ==> tl.bufferedQueueList[i] != nil && cap(tl.bufferedQueueList[i]) == tl.queueSize && !tl.bufferedQueueList[i].closeOnly)
+//@   | && (forall i int {tl.blockingQueueList[i]} :: 0 <= i && i < tl.laneSize ==> tl.blockingQueueList[i] != nil && cap(tl.blockingQueueList[i]) == 0 && !tl.blockingQueueList[i].closeOnly && tl.blockingQueueList[i] != tl.universalQueue)
+// this thread has closed none of the lane's channels (no function of the package closes them: see chan-roles)
+//@ pure noCloses(tl *TaskLane) bool = tl.universalQueue.closes == 0 && (forall i int {tl.bufferedQueueList[i]} :: 0 <= i && i < tl.laneSize ==> tl.bufferedQueueList[i].closes == 0) && (forall i int {tl.blockingQueueList[i]} :: 0 <= i && i < tl.laneSize ==> tl.blockingQueueList[i].closes == 0)
+
+//@ shared TaskLane.ctx immutable
+//@ shared TaskLane.wg immutable
+//@ shared TaskLane.laneSize immutable
+//@ shared TaskLane.queueSize immutable
+//@ shared TaskLane.bufferedQueueList immutable
+//@ shared TaskLane.blockingQueueList immutable
+//@ shared TaskLane.universalQueue immutable
+//@ shared TaskLane.blockingTaskCnt immutable
+//@ shared TaskLane.lastPanic atomic
+
+// ---- PushTask (C06 (1), C07 (1)) ----
+//@ func (*TaskLane).PushTask
+//@   requires laneOK(tl) && noCloses(tl) && 0 <= index && index < tl.laneSize && ErrTimeout != nil
+//@   modifies ghostfields(sends), ghostfields(recvs), ghostfields(lastSentIface), ghostfields(lastRecvIface), ghostfields(closed), sendSeq, recvSeq, lastRecvAny
+//@   attr blocking-ops select#2
+//@   attr select#1 nonblocking recv(doneChan(tl.ctx))
+//@   attr select#2 blocking recv(doneChan(tl.ctx)) send(tl.bufferedQueueList[index],task)
+//@   ensures sendIffNil: (result == nil) == (tl.bufferedQueueList[index].sends == old(tl.bufferedQueueList[index].sends) + 1)
+//@   ensures oneSend: sendSeq == old(sendSeq) + ite(result == nil, 1, 0)
+//@   ensures sentTask: result == nil ==> tl.bufferedQueueList[index].lastSentIface == task
+//@   ensures cancelled: old(doneChan(tl.ctx).closed) ==> result != nil && result == ctxErr(tl.ctx) && sendSeq == old(sendSeq)
+
+// ---- startQueue (C06 (2), C07, C08 (2), C14 counter) ----
+// One iteration: take exactly one task from the lane's buffer, raise the in-hand counter, hand exactly that task to
+// the lane's own worker or to the shared channel by exactly one send, lower the counter. It returns only on a
+// path where a ctx.Done() case was taken; then it holds at most the task taken in this iteration.
+//@ func (*TaskLane).startQueue
+//@   requires laneOK(tl) && noCloses(tl) && 0 <= index && index < tl.laneSize && myCnt == 0
+//@   modifies ghostfields(sends), ghostfields(recvs), ghostfields(lastSentIface), ghostfields(lastRecvIface), ghostfields(closed), sendSeq, recvSeq, lastRecvAny, myCnt, tl.wg.doneByMe
+//@   attr blocking-ops select#1,select#4
+//@   attr select#1 blocking recv(doneChan(tl.ctx)) recv(tl.bufferedQueueList[index])
+//@   attr select#2 nonblocking recv(doneChan(tl.ctx))
+//@   attr select#3 nonblocking send(tl.blockingQueueList[index],lastRecvAny)
+//@   attr select#4 blocking recv(doneChan(tl.ctx)) send(tl.blockingQueueList[index],lastRecvAny) send(tl.universalQueue,lastRecvAny)
+//@   ensures wgDone: tl.wg.doneByMe == old(tl.wg.doneByMe) + 1
+//@   ensures cancelledAtExit: doneChan(tl.ctx).closed
+//@   loop 1
+//@     invariant myCnt == 0 && tl.wg.doneByMe == old(tl.wg.doneByMe)
+//@     step take: now(tl.bufferedQueueList[index].recvs) == tl.bufferedQueueList[index].recvs + 1 && now(recvSeq) == recvSeq + 1
+//@     step handover: now(sendSeq) == sendSeq + 1 && ((now(tl.blockingQueueList[index].sends) == tl.blockingQueueList[index].sends + 1 && now(tl.blockingQueueList[index].lastSentIface) == now(lastRecvAny)) || (now(tl.universalQueue.sends) == tl.universalQueue.sends + 1 && now(tl.universalQueue.lastSentIface) == now(lastRecvAny)))
+//@     step balance: now(myCnt) == 0
+//@     exit drop: now(sendSeq) == sendSeq && now(doneChan(tl.ctx).closed) && (now(tl.bufferedQueueList[index].recvs) == tl.bufferedQueueList[index].recvs || now(tl.bufferedQueueList[index].recvs) == tl.bufferedQueueList[index].recvs + 1) && now(myCnt) == now(tl.bufferedQueueList[index].recvs) - tl.bufferedQueueList[index].recvs
+
+// ---- startWorker (C06 (3), C07, C08 (2), C14) ----
+//@ func (*TaskLane).startWorker
+//@   requires laneOK(tl) && noCloses(tl) && 0 <= index && index < tl.laneSize
+//@   modifies everything
+//@   attr blocking-ops select#3,call(startWorker$1)#1
+//@   attr select#1 nonblocking recv(doneChan(tl.ctx))
+//@   attr select#2 nonblocking recv(tl.blockingQueueList[index])
+//@   attr select#3 blocking recv(doneChan(tl.ctx)) recv(tl.blockingQueueList[index]) recv(tl.universalQueue)
+//@   ensures wgDone: tl.wg.doneByMe == old(tl.wg.doneByMe) + 1
+//@   ensures cancelledAtExit: doneChan(old(tl.ctx)).closed
+//@   loop 1
+//@     invariant tl == old(tl) && laneOK(tl) && noCloses(tl) && 0 <= index && index < tl.laneSize && tl.wg == old(tl.wg) && tl.ctx == old(tl.ctx) && tl.wg.doneByMe == old(tl.wg.doneByMe)
+//@     step linear: now(tl.blockingQueueList[index].recvs) + now(tl.universalQueue.recvs) == tl.blockingQueueList[index].recvs + tl.universalQueue.recvs + 1 && now(startCalls) == startCalls + 1 && now(lastStarted) == now(lastRecvAny)
+//@     exit idle: now(tl.blockingQueueList[index].recvs) == tl.blockingQueueList[index].recvs && now(tl.universalQueue.recvs) == tl.universalQueue.recvs && now(startCalls) == startCalls
+
+// the function that calls Start: exactly one Start on the task it was given, and no panic escapes it
+//@ func (*TaskLane).startWorker$1
+//@   requires tl != nil
+//@   modifies everything
+//@   modifies startCalls, lastStarted
+//@   attr blocking-ops call(Start)#1
+//@   ensures once: startCalls == old(startCalls) + 1 && lastStarted == old(task)
+//@   ensures lane: tl == old(tl) && laneSame(tl)
+
+// deferred in startWorker$1: recovers, records the panic value
+//@ func (*TaskLane).startWorker$1$1
+//@   requires tl != nil
+//@   modifies panicking, tl.lastPanic.cur
+//@   attr recovers yes
+//@   ensures recovered: !panicking
+//@   ensures value: old(panicking) ==> tl.lastPanic.cur != nil && *tl.lastPanic.cur == old(pval)
+//@   ensures quiet: !old(panicking) ==> tl.lastPanic.cur == old(tl.lastPanic.cur)
+
+// ---- New (C06 roles, C07 (2), C08 (1)) ----
+//@ func New
+//@   requires laneSize >= 0 && laneSize <= 72057594037927936 && queueSize >= 0 && ctx != nil && myCnt == 0
+//@   attr constructor yes
+//@   arith-assumed
+//@   modifies spawnedQ, spawnedW
+//@   ensures lane: laneOK(result) && noCloses(result) && fresh(result) && result.laneSize == laneSize && result.queueSize == queueSize && result.ctx == ctx
+//@   ensures workers: spawnedW == old(spawnedW) + laneSize && spawnedQ == old(spawnedQ) + laneSize
+//@   ensures wg: result.wg.added == 2 * laneSize && fresh(result.wg)
+//@   ghost after call startQueue set spawnedQ = spawnedQ + 1
+//@   ghost after call startWorker set spawnedW = spawnedW + 1
+//@   loop 1
+//@     invariant 0 <= i && i <= laneSize && len(bufferedQueueList) == laneSize && len(blockingQueueList) == laneSize && fresh(arr(bufferedQueueList)) && fresh(arr(blockingQueueList)) && arr(bufferedQueueList) != arr(blockingQueueList)
+//@     invariant forall j int {bufferedQueueList[j]} :: 0 <= j && j < i ==> bufferedQueueList[j] != nil && fresh(bufferedQueueList[j]) && cap(bufferedQueueList[j]) == queueSize && !bufferedQueueList[j].closeOnly && bufferedQueueList[j].closes == 0
+//@     invariant forall j int {blockingQueueList[j]} :: 0 <= j && j < i ==> blockingQueueList[j] != nil && fresh(blockingQueueList[j]) && cap(blockingQueueList[j]) == 0 && !blockingQueueList[j].closeOnly && blockingQueueList[j].closes == 0
+//@     invariant spawnedQ == old(spawnedQ) && spawnedW == old(spawnedW)
+//@     decreases laneSize - i
+//@   loop 2
+//@     invariant 0 <= i && i <= laneSize && tl != nil && fresh(tl) && laneOK(tl) && noCloses(tl) && tl.laneSize == laneSize && tl.queueSize == queueSize && tl.ctx == ctx
+//@     invariant tl.wg.added == 2 * laneSize && fresh(tl.wg)
+//@     invariant spawnedQ == old(spawnedQ) + i && spawnedW == old(spawnedW) + i
+//@     decreases laneSize - i
+
+//@ func (*TaskLane).Wait
+//@   requires tl != nil && tl.wg != nil
+//@   modifies nothing
+//@   attr blocking-ops call(Wait)#1
+
+// ---- Status (C14) ----
+//@ func (*TaskLane).Status
+//@   requires laneOK(tl) && tl.queueSize >= 0 && cntMax(tl.blockingTaskCnt) <= tl.laneSize
+//@   arith-assumed
+//@   modifies nothing
+//@   attr blocking-ops none
+//@   ensures bounds: 0 <= result.PendingTask && result.PendingTask <= tl.laneSize * (tl.queueSize + 1)
+//@   ensures fields: result.LaneSize == tl.laneSize && result.QueueSize == tl.queueSize
+//@   ensures lastPanic: (tl.lastPanic.cur == nil ==> result.LastPanic == nil) && (tl.lastPanic.cur != nil ==> result.LastPanic == *tl.lastPanic.cur)
+//@   loop 1
+//@     invariant 0 <= i && i <= tl.laneSize && 0 <= pending && pending <= i * tl.queueSize
+//@     decreases tl.laneSize - i
+
+// ---- channel roles (C06 (4)) and synchronous Start (C08 (1)) : structural, decided by scans on the SSA ----
+//@ chanrole TaskLane.bufferedQueueList send:PushTask recv:startQueue close:-
+//@ chanrole TaskLane.blockingQueueList send:startQueue recv:startWorker close:-
+//@ chanrole TaskLane.universalQueue send:startQueue recv:startWorker close:-
+//@ syncall Task.Start in startWorker$1
